@@ -110,3 +110,65 @@ def stream(ctx, shape, name, which, case):
         ctx.fail(f'{fn.__name__}[X{i}, X{j}] is not the partial derivative of F[X{i}] with respect to X{j} (the sum over rules and '
                  f'edges of the sum-product of the remaining edges)', dict(case, config=cfg, block=[i, j]), got, m,
                  tags=['jacobian', which, name, 'value'] + (['j_precompute=True'] if which == 'JPP' else []) + tags_shape)
+
+
+def stream_jlog(ctx, shape, case):
+    """compare J_log — the Jacobian of F in the Log semiring, "computed in the real semiring": both blocks, Jx over the nonterminals
+    and J_inputs over the terminals — with the model Jl.jlogLabel (the two softmaxes as divisions by slice sums over Rat) on one
+    grammar shape; values are logarithms of small dyadic rationals, some zero (-inf), some nonterminals without a value"""
+    from fggs.sum_product import J_log
+    from fggs import RealSemiring
+    from fractions import Fraction
+    fgg, info = semgen.build(shape, 'log', torch.float64)
+    sr = semgen.semiring_of('log', torch.float64)
+    vals = []
+    for X in info['XL']:
+        n = 1
+        for s_ in fgg.shape(X): n *= s_
+        vals.append(None if ctx.rng.random() < 0.12 else [ctx.rng.choice([0.0, 0.5, 1.0, 1.0, 2.0, 0.25, 3.0]) for _ in range(n)])
+    x = MultiTensor(FGGMultiShape(fgg, info['XL']), sr)
+    for X, v in zip(info['XL'], vals):
+        if v is not None:
+            x[X] = PatternedTensor(torch.tensor([math.log(c) if c > 0 else -math.inf for c in v], dtype=torch.float64).reshape(tuple(fgg.shape(X))))
+    inputs = {t: fgg.factors[t.name].weights for t in fgg.terminals()}
+    terms = info['TL']
+    jin = MultiTensor((FGGMultiShape(fgg, info['XL']), FGGMultiShape(fgg, terms)), RealSemiring(dtype=torch.float64))
+    cfg = dict(function='J_log', x=[None if v is None else [str(c) for c in v] for v in vals])
+    ctx.evaluations += 1
+    try:
+        with torch.no_grad():
+            Jx = J_log(fgg, x, inputs, sr, jin)
+    except Exception as e:  # noqa
+        ctx.count('jac.JLOG.raise')
+        ctx.fail(f'J_log raised {type(e).__name__}: {e}', dict(case, config=cfg), repr(e), None, tags=['jacobian', 'JLOG', type(e).__name__])
+        return
+    renc = lambda c: str(Fraction(c))
+    xenc = enc_list(vals, lambda v: 'none' if v is None else 'some ' + enc_list(v, renc))
+    rep = ctx.driver.ask(f'C03.jlog {gen.enc_shape(shape, wenc=renc)} {xenc}')
+    t = Toks(rep)
+    model = t.list(lambda: t.list(lambda: t.opt(lambda: t.list(lambda: Fraction(t.next())))))
+    T = len(terms)
+    bad = None
+    nonzero = False
+    for i, X in enumerate(info['XL']):
+        for l in range(T + len(info['XL'])):
+            m = model[i][l]
+            L = terms[l] if l < T else info['XL'][l - T]
+            src = jin if l < T else Jx
+            got = semgen.dense_list(src[(X, L)]) if (X, L) in src else None
+            mf = None if m is None else [float(c) for c in m]
+            if mf is not None and any(c != 0 for c in mf):
+                nonzero = True
+            if got is None:
+                ok = mf is None or all(c == 0 for c in mf)
+            elif mf is None:
+                ok = all(g == 0 for g in got)
+            else:
+                ok = len(got) == len(mf) and all((g == c) or abs(g - c) <= 1e-9 * max(1.0, abs(c)) for g, c in zip(got, mf))
+            if not ok and bad is None:
+                bad = (i, l, got, None if m is None else [str(c) for c in m])
+    ctx.count('jac.JLOG.' + ('nonzero' if nonzero else 'zero'))
+    if bad is not None:
+        i, l, got, m = bad
+        ctx.fail(f'J_log[X{i}, label {l}] is not the logarithmic derivative of F[X{i}] (softmax over the rules times softmax over the '
+                 f'edge\'s assignments)', dict(case, config=cfg, block=[i, l]), got, m, tags=['jacobian', 'JLOG', 'value'])
